@@ -37,6 +37,8 @@ pub fn jobs(prop: &str, tier: Tier) -> Vec<(String, u64)> {
         "C19" => vec![("proc:summary".into(), 1)],
         "C20" => vec![("proc:pty".into(), 16), ("proc:stall".into(), 4)],
         "C12" => vec![("proc:errors".into(), 1)],
+        // a rule with both deps = msvc and a depfile still has its depfile read
+        "C15" => vec![("proc:msvc".into(), 4)],
         _ => vec![],
     }
 }
@@ -311,6 +313,11 @@ fn status_job(ctx: &mut Ctx, res: &mut ShardResult) {
     // The same with other failure budgets: an interruption stops the build
     // whatever -k says (also when no -k is given); an ordinary failure with
     // budget left does not.
+    // The signal sent by a shell builtin as the very first thing the command
+    // does (no external command has run yet, so the shell still has the signal
+    // mask and dispositions it was started with).
+    cases.push(("sigfirst", 2));
+    cases.push(("sigfirst", 15));
     cases.push(("sigint-nok", 2));
     cases.push(("sigint-k3", 2));
     cases.push(("exit-k3", 7));
@@ -326,6 +333,7 @@ fn status_job(ctx: &mut Ctx, res: &mut ShardResult) {
         fresh();
         res.evaluations += 1;
         let cmd = match *kind {
+            "sigfirst" => format!("kill -{} $$; echo survived; true", n),
             "exit" | "exit-k3" => format!("touch first; exit {}", n),
             _ => format!("touch first; kill -{} $$; sleep 0.05; true", n),
         };
@@ -355,18 +363,25 @@ fn status_job(ctx: &mut Ctx, res: &mut ShardResult) {
             }
             continue;
         }
-        let kind = &if kind.starts_with("sigint") { "signal" } else { *kind };
+        let kind = &if kind.starts_with("sigint") || *kind == "sigfirst" { "signal" } else { *kind };
         let ignored_by_default = *kind == "signal" && [17, 18, 23, 28].contains(n);
         let success_expected = (*kind == "exit" && *n == 0) || ignored_by_default;
         // n2 (a Rust program) runs with SIGPIPE ignored and children inherit
         // that, so `kill -PIPE $$` is a no-op for them; either disposition is
         // accepted (the property does not speak about signal dispositions).
-        if *kind == "signal" && *n == 13 {
-            let text_ok = (o.code == Some(0) && text.contains("now up to date")) || (o.code != Some(0) && text.contains("signal 13"));
+        // The same holds for any signal this process itself inherited as
+        // ignored (e.g. SIGHUP under nohup): an ignored disposition survives
+        // exec, so the command's `kill` is a no-op through no fault of n2.
+        let inherited_ignored = *kind == "signal" && *n != 2 && unsafe {
+            let mut old: libc::sigaction = std::mem::zeroed();
+            libc::sigaction(*n, std::ptr::null(), &mut old) == 0 && old.sa_sigaction == libc::SIG_IGN
+        };
+        if *kind == "signal" && (*n == 13 || inherited_ignored) {
+            let text_ok = (o.code == Some(0) && text.contains("now up to date")) || (o.code != Some(0) && text.contains(&format!("signal {}", n)));
             if !text_ok {
-                res.violation("sigpipe-neither-ignored-nor-failure", || format!("SIGPIPE: n2 exit {:?}\n{}", o.code, text), replay);
+                res.violation("ignored-signal-neither-ignored-nor-failure", || format!("signal {} (ignored in the environment): n2 exit {:?}\n{}", n, o.code, text), replay);
             } else {
-                res.outcome("status-sigpipe");
+                res.outcome("status-ignored-signal");
             }
             continue;
         }
@@ -542,8 +557,11 @@ fn msvc_job(ctx: &mut Ctx, res: &mut ShardResult) {
             // both): the notes are still not for the user's eyes, whether the
             // command succeeds (2) or fails (3).
             std::fs::write("both.h", "h").unwrap();
+            std::fs::write("dep_only.h", "h").unwrap();
             std::fs::write("src.c", "c").unwrap();
-            let tail = if variant == 2 { "printf 'out.obj: both.h\\n' > out.obj.d; touch $out" } else { "exit 3" };
+            // (the depfile names a header the notes do not mention: it must be
+            // read although the rule also says deps = msvc)
+            let tail = if variant == 2 { "printf 'out.obj: dep_only.h\\n' > out.obj.d; touch $out" } else { "exit 3" };
             let manifest = format!("rule cc\n  command = printf 'visible line\\nNote: including file: both.h\\nlast line\\n'; {}\n  description = COMPILE\n  deps = msvc\n  depfile = out.obj.d\nbuild out.obj: cc src.c\n", tail);
             std::fs::write("build.ninja", &manifest).unwrap();
             let o1 = n2(&[]);
@@ -557,11 +575,11 @@ fn msvc_job(ctx: &mut Ctx, res: &mut ShardResult) {
                 res.violation("ordinary-output-lost", || format!("the non-note lines are missing from n2's output:\n{}", t1.chars().take(600).collect::<String>()), replay);
             } else if variant == 2 {
                 std::thread::sleep(std::time::Duration::from_millis(20));
-                std::fs::write("both.h", "changed").unwrap();
+                std::fs::write("dep_only.h", "changed").unwrap();
                 let o3 = n2(&[]);
                 let t3 = String::from_utf8_lossy(&o3.stdout).to_string();
                 if !t3.contains("ran 1 task") {
-                    res.violation("reported-header-not-remembered", || format!("after editing both.h the step was not rebuilt: {}", t3), replay);
+                    res.violation("reported-header-not-remembered", || format!("after editing dep_only.h (named by the depfile of a rule with deps = msvc) the step was not rebuilt: {}", t3), replay);
                 } else {
                     res.nontrivial += 1;
                     res.outcome("msvc-with-depfile-ok");
